@@ -151,6 +151,9 @@ pub fn par_map<T: Sync, R: Send>(ctx: &Ctx, items: &[T], f: impl Fn(&mut Worker,
                     if i >= items.len() {
                         break;
                     }
+                    if items.len() >= 200 && i % (items.len() / 10).max(1) == 0 {
+                        eprintln!("[progress] item {}/{}", i, items.len());
+                    }
                     let r = f(&mut worker, i, &items[i]);
                     for fd in worker.findings.drain(..) {
                         found.push((i, fd));
@@ -264,9 +267,6 @@ impl<'a> Worker<'a> {
         for (i, g) in golden.iter().enumerate().take(k) {
             for (p, d) in &g.files {
                 files.insert(p.clone(), Arc::new(d.clone()));
-            }
-            if let Some(p) = &case.steps[i].stdout_to {
-                files.insert(p.clone(), Arc::new(g.stdout.clone()));
             }
         }
         let files: Vec<_> = files.into_iter().collect();
